@@ -2,6 +2,7 @@ package props
 
 import (
 	"fmt"
+	"github.com/emirpasic/gods/v2/lists"
 
 	"godsverif/core"
 
@@ -50,6 +51,33 @@ type cursor struct {
 	// others) every few invocations - pure, but re-entrant
 	reent  bool
 	pcalls int
+}
+
+// listGrow adds one value to a list by one of the routes the API offers (every
+// one of them links or places the new element with its own code).
+func listGrow(r *core.R, l lists.List[int], v int) {
+	switch r.Intn(7) {
+	case 0:
+		l.Add(v)
+	case 1:
+		l.Insert(l.Size(), v)
+	case 2:
+		l.Set(l.Size(), v) // the documented append corner of Set
+	case 3:
+		if p, ok := l.(interface{ Prepend(...int) }); ok {
+			p.Prepend(v)
+		} else {
+			l.Insert(0, v)
+		}
+	case 4:
+		if p, ok := l.(interface{ Append(...int) }); ok {
+			p.Append(v, v+6)
+		} else {
+			l.Add(v, v+6)
+		}
+	default:
+		l.Insert(r.Range(0, l.Size()), v)
+	}
 }
 
 func (cu *cursor) reenter() {
@@ -357,19 +385,19 @@ func buildCursor(c *core.Ctx, typ string, n int, exact bool) (mk func() *cursor)
 	switch typ {
 	case "ArrayList":
 		l := arraylist.New[int]()
-		churn(func(v int) { l.Insert(r.Range(0, l.Size()), v) }, func() { l.Remove(r.Range(0, l.Size())) }, l.Size)
+		churn(func(v int) { listGrow(r, l, v) }, func() { l.Remove(r.Range(0, l.Size())) }, l.Size)
 		return func() *cursor {
 			return withReader(idxCursor[int](c, typ, l.Iterator(), l.Values()), func() { l.Values(); _ = l.String() })
 		}
 	case "SinglyLinkedList":
 		l := singlylinkedlist.New[int]()
-		churn(func(v int) { l.Insert(r.Range(0, l.Size()), v) }, func() { l.Remove(r.Range(0, l.Size())) }, l.Size)
+		churn(func(v int) { listGrow(r, l, v) }, func() { l.Remove(r.Range(0, l.Size())) }, l.Size)
 		return func() *cursor {
 			return withReader(idxCursor[int](c, typ, l.Iterator(), l.Values()), func() { l.Values(); _ = l.String() })
 		}
 	case "DoublyLinkedList":
 		l := doublylinkedlist.New[int]()
-		churn(func(v int) { l.Insert(r.Range(0, l.Size()), v) }, func() { l.Remove(r.Range(0, l.Size())) }, l.Size)
+		churn(func(v int) { listGrow(r, l, v) }, func() { l.Remove(r.Range(0, l.Size())) }, l.Size)
 		return func() *cursor {
 			it := l.Iterator()
 			return withReader(idxCursor[int](c, typ, &it, l.Values()), func() { l.Values(); _ = l.String() })
